@@ -1373,6 +1373,11 @@ def h_attributes_nlri(ctx):
                 for pid, mask, prefix in O.prefixes(w.nlri, 32, False, w.d):
                     sent.append((1, int(mask), bytes(prefix)))
             else:
+                # RFC 4760 3 with RFC 2545 3: the next hop of an IPv6 NLRI is 16 or 32 octets (there is no IPv4 next hop for it:
+                # RFC 8950 is the other direction)
+                if int(w.mp[0]) == 2:
+                    ctx.check('next-hop-the-wire-format-can-hold', len(w.mp[2]) in (16, 32), sig='C18:attributes-nlri:ipv6-nlri-sent-with-a-%d-octet-next-hop' % len(w.mp[2]),
+                              info=dict(info, next_hop=bytes(w.mp[2]).hex()))
                 for pid, mask, prefix in O.prefixes(w.mp[3], 128 if w.mp[0] == 2 else 32, False, w.d):
                     sent.append((int(w.mp[0]), int(mask), bytes(prefix)))
     # whether a prefix of the other family than the next hop is sent at all is not judged here (C01): what IS sent is a prefix of
